@@ -368,13 +368,17 @@ def empty_view():
 # ------------------------------------------------------------------------------------------
 # scenario generation (stub cyst objects)
 
-def gen_scenario(rng, n_nodes=None):
+def gen_scenario(rng, n_nodes=None, one_private_block=False):
     """A random topology built from the stub cyst classes: nodes with 0-3 interfaces, several
     services per node, several datapoints per service, local and non-local services, routers with
     random ALLOW/DENY rules, private and public networks."""
     import cyst.api.configuration as C
     nets_priv = [f"192.168.{rng.randrange(1, 6)}.0/24" for _ in range(rng.randrange(1, 3))] + \
                 rng.sample(["10.0.0.0/24", "10.0.1.0/24", "172.16.5.0/28", "172.31.0.0/16"], rng.randrange(0, 3))
+    if one_private_block:
+        # all private networks inside one RFC 1918 block (what the dynamic address generator can re-label)
+        nets_priv = [f"192.168.{k}.0/24" for k in rng.sample(range(1, 9), rng.randrange(1, 4))] + \
+                    ([f"192.168.{rng.randrange(10, 20)}.16/28"] if rng.random() < 0.3 else [])
     nets_pub = rng.sample(["213.47.23.192/26", "8.8.8.0/24", "100.64.0.0/30"], rng.randrange(1, 3))
     nets = list(dict.fromkeys(nets_priv + nets_pub))
     used = set()
